@@ -393,10 +393,27 @@ func VerifH_StreamEqualsBuffer() {
 	data := symx.Bytes("data", L)
 	buf := NewReadableBufferX(append([]byte(nil), data...))
 	rd := NewReaderX(&verifChunkReader{src: data})
-	kind := symx.Concrete(symx.Int("kind"), 0, 9)
+	kind := symx.Concrete(symx.Int("kind"), 0, 10)
 	var e1, e2 error
 	same := true
 	switch kind {
+	case 10:
+		// two consecutive raw fields (zero-copy reads), both looked at after the second read: what an
+		// earlier read returned still denotes that field
+		na := symx.Concrete(symx.Int("na"), 1, 2)
+		nb := symx.Concrete(symx.Int("nb"), 1, 2)
+		xa, ea1 := buf.ZReadN(na)
+		ya, ea2 := rd.ZReadN(na)
+		symx.Assert((ea1 == nil) == (ea2 == nil), "stream and buffer reader agree on success/failure (first raw field)")
+		if ea1 != nil || ea2 != nil {
+			break
+		}
+		var xb, yb []byte
+		xb, e1 = buf.ZReadN(nb)
+		yb, e2 = rd.ZReadN(nb)
+		if e1 == nil && e2 == nil {
+			same = string(xb) == string(yb) && string(xa) == string(ya) && string(ya) == string(data[:na])
+		}
 	case 0:
 		var x, y bool
 		x, e1 = buf.ReadBool()
